@@ -394,6 +394,100 @@ example : DotFree exBase.parts ∧ (∀ r ∈ [exRef, ⟨none, none, "..//x".toL
     RelRef r ∧ r.query ≠ some [] ∧ CanonQ r.query) := by decide
 
 
+/-! ### two strengthenings: no condition on the base path, no condition on the query texts -/
+
+/-- the RFC target with RFC 3986 6.2.2.3 path normalisation applied (the statement's "normalized result") -/
+def Ref.normalized (t : Ref) : Ref := { t with path := removeDotSegments t.path }
+
+/-- **navigate = normalised RFC 5.2 target, for bases WITH dot segments too.**  `navigateWith_eq_rfc` needs a
+    dot-free base path when the reference path is empty (the RFC keeps the base path verbatim there, the code
+    normalises it).  Against the normalised target no such condition is needed, and for a reference with a path
+    normalising the target changes nothing (`resolve_target_path_normal`). -/
+theorem navigateWith_eq_normalized_rfc (honour : Bool) (b : URL) (r : Ref) (hb : AbsBase b) (hr : RelRef r)
+    (hcq : CanonQ r.query)
+    (hq : honour = true ∨ ¬ (r.path = [] ∧ r.query = some [] ∧ queryText b.query ≠ [])) :
+    (URL.navigateWith honour b (URL.ofRelRef r)).toRef.canon = (resolve b.toRef r).normalized.canon := by
+  obtain ⟨segs, hsegs⟩ := hb.rooted
+  have hns : ∀ s ∈ segs, NoSlash s := fun s hs => hb.noSlash s (by simp [hsegs, hs])
+  have hbase := toRef_rooted b segs hb.host_ne hsegs
+  have hpath := navigate_path_eq_normalized_rfc b segs r hr hsegs hns b.toRef (by simp [hbase]) (by simp [hbase])
+  have hquery := relQuery_eq_rfc honour b b.toRef r hr (by simp [hbase]) hcq hq
+  rw [navigate_rel honour b r hb]
+  have hN : (resolvePathParts (relParts b r)) = [] :: process [] (relSegs segs r) := by
+    rw [relParts_eq b r segs hsegs, resolvePathParts_root]
+  rw [toRef_rooted (relResult honour b r) (process [] (relSegs segs r)) hb.host_ne hN]
+  have hflat : flat (process [] (relSegs segs r)) = removeDotSegments (resolve b.toRef r).path := by
+    rw [← hpath, hN, joinSlash_root]
+  simp only [Ref.canon, Ref.normalized, Ref.mk.injEq]
+  refine ⟨?_, ?_, hflat, hquery, ?_⟩
+  · rw [resolve_rel_scheme _ _ hr, hbase]; rfl
+  · rw [resolve_rel_authority _ _ hr, hbase]; rfl
+  · rw [resolve_rel_fragment _ _ hr]; exact dropEmpty_optOfStr_getD r.fragment
+
+/-- for a reference with a path (or a dot-free base path) the RFC target is already normalised: removing dot
+    segments once more changes nothing (RFC 3986 5.2.4 is idempotent on what 5.2.2 produces) -/
+theorem resolve_target_path_normal (b : URL) (r : Ref) (hb : AbsBase b) (hr : RelRef r)
+    (hdf : r.path ≠ [] ∨ DotFree b.parts) :
+    (resolve b.toRef r).normalized = resolve b.toRef r := by
+  obtain ⟨segs, hsegs⟩ := hb.rooted
+  have hns : ∀ s ∈ segs, NoSlash s := fun s hs => hb.noSlash s (by simp [hsegs, hs])
+  have hbase := toRef_rooted b segs hb.host_ne hsegs
+  have hdf' : r.path ≠ [] ∨ DotFree segs := by
+    rcases hdf with h | h
+    · exact Or.inl h
+    · exact Or.inr ((dotFree_root segs).1 (hsegs ▸ h))
+  have h1 := navigate_path_eq_rfc b segs r hr hsegs hns b.toRef (by simp [hbase]) (by simp [hbase]) hdf'
+  have h2 := navigate_path_eq_normalized_rfc b segs r hr hsegs hns b.toRef (by simp [hbase]) (by simp [hbase])
+  unfold Ref.normalized
+  rw [← h2, h1]
+
+/-- a base with dot segments in its path and an empty / fragment-only / query-only reference -/
+def exBaseDots : URL := URL.ofComponents (some "http".toList) true [] [] "a".toList false 0
+  "/b/../c/./d".toList (some "q".toList) none
+example : AbsBase exBaseDots ∧ ¬ DotFree exBaseDots.parts ∧ RelRef exRefFrag ∧ CanonQ exRefFrag.query :=
+  ⟨⟨by decide, ⟨_, rfl⟩, by decide, by decide, by decide⟩, by decide, by decide, by decide⟩
+example : (URL.navigateWith true exBaseDots (URL.ofRelRef exRefFrag)).toText = "http://a/c/d?q#sec".toList := by decide
+
+/-- **the query PARAMETERS of the result are the parameters of the RFC target's query, for ANY query texts** (`;`
+    separators, empty pairs, pairs without `=` ... - no `CanonQ`): `bq` is the query text the base was parsed from
+    (or `none`), the reference's query text is arbitrary.  For the unrepaired code the reference must not be a
+    path-less one whose present query holds no parameter (`?`, `?&`, `?;`) against a base with parameters. -/
+theorem navigateWith_params_eq_rfc (honour : Bool) (b : URL) (bq : Option Str) (r : Ref) (hb : AbsBase b)
+    (hr : RelRef r) (hbq : b.query = parseQsl (bq.getD []))
+    (hq : honour = true ∨
+      ¬ (r.path = [] ∧ r.query.isSome = true ∧ parseQsl (r.query.getD []) = [] ∧ b.query ≠ [])) :
+    (URL.navigateWith honour b (URL.ofRelRef r)).query
+      = parseQsl ((resolve { b.toRef with query := bq } r).query.getD []) := by
+  rw [navigate_rel honour b r hb, relResult_query, resolve_rel_query _ r hr]
+  unfold relQuery
+  by_cases h1 : r.path = []
+  · simp only [h1, if_true]
+    cases hrq : r.query with
+    | none => simp [hbq]
+    | some q =>
+      simp only [Option.getD_some, Option.isSome_some, if_true]
+      by_cases hp : parseQsl q = []
+      · rcases hq with hh | hq
+        · simp [hh, hp]
+        · have hbe : b.query = [] := by
+            by_cases hbe : b.query = []
+            · exact hbe
+            · exact absurd ⟨h1, by simp [hrq], by simpa [hrq] using hp, hbe⟩ hq
+          cases honour <;> simp [hp, hbe]
+      · simp [hp]
+  · simp [h1]
+
+/-- a base parsed from `?a=1;b=2&&c` and references with `;`, empty pairs and a bare `?` -/
+def exBaseSemi : URL := URL.ofComponents (some "http".toList) true [] [] "a".toList false 0
+  "/b".toList (some "a=1;b=2&&c".toList) none
+example : AbsBase exBaseSemi ∧ exBaseSemi.query = parseQsl ((some "a=1;b=2&&c".toList).getD []) :=
+  ⟨⟨by decide, ⟨_, rfl⟩, by decide, by decide, by decide⟩, rfl⟩
+example : (URL.navigateWith true exBaseSemi (URL.ofRelRef ⟨none, none, "x".toList, some "&k;;j=&".toList, none⟩)).query
+    = [("k".toList, none), ("j".toList, some [])] := by decide
+example : (URL.navigateWith true exBaseSemi (URL.ofRelRef ⟨none, none, [], some ";".toList, none⟩)).query = [] ∧
+    (URL.navigateWith false exBaseSemi (URL.ofRelRef ⟨none, none, [], some ";".toList, none⟩)).query
+      = exBaseSemi.query := by decide
+
 /-! ### navigate's glue: which component comes from where (any base, any non-replacing reference, either version) -/
 
 /-- the fragment is never inherited: the result carries the reference's fragment (none if it has none) -/
